@@ -48,6 +48,10 @@ class BehavioralRTLIRToVVisitorL3( BehavioralRTLIRToVVisitorL2 ):
     for value in node.values:
       value._top_expr = True
 
+    if len( node.values ) == 1:
+      # a bare compound value would be re-grouped by the operators around
+      # the struct instance
+      return s.visit_expr_wrap( node.values[0] )
     values = list( map( s.visit, node.values ) )
     if len( values ) == 1:
       return values[0]
